@@ -262,6 +262,45 @@ def gen_cases(tier):
             cases.append(Case(name, src, [t], t,
                               (lambda n_, t_, c_, w_: lambda args: spec_bin(n_, t_)([args[0], z3.BitVecVal(c_, w_)]))(n, t, c, w),
                               {'kind': 'binop-literal', 'op': n, 'type': t}))
+    # literal operands, systematically: powers of two and other constants on the right of / % * << >> (where a compiler is
+    # tempted to strength-reduce), constants on the left, and the compound-assignment spelling
+    for t in INTS:
+        w = bits_of(t); sg = signed_of(t)
+        top = (1 << (w - 1)) - 1 if sg else (1 << w) - 1
+        pows = [1 << k for k in range(0, w - (1 if sg else 0))]
+        if tier == 'quick':
+            pows = [p for p in pows if p in (1, 2, 4, 8, 64) or p == pows[-1]]
+            others = [3, 10, 100]
+        else:
+            others = [3, 5, 6, 7, 9, 10, 12, 100, 127, top]
+        consts = sorted({c for c in pows + others if 0 < c <= top and c < (1 << 63)})
+        for n, o in (('div', '/'), ('rem', '%'), ('mul', '*')):
+            for c in consts:
+                name = 'k%s_%s_%d' % (n, t, c)
+                cases.append(Case(name, '%s :: (a: %s) -> %s { a %s %d }' % (name, t, t, o, c), [t], t,
+                                  (lambda n_, t_, c_, w_: lambda args: spec_bin(n_, t_)([args[0], z3.BitVecVal(c_, w_)]))(n, t, c, w),
+                                  {'kind': 'binop-literal', 'op': n, 'type': t, 'literal': 'power-of-two' if c & (c - 1) == 0 else 'other'}))
+            for c in ([2, 8] if tier == 'quick' else [2, 4, 8, 64, 3, 10]):
+                if c > top:
+                    continue
+                name = 'ka%s_%s_%d' % (n, t, c)
+                cases.append(Case(name, '%s :: (a: %s) -> %s { x := a; x %s= %d; x }' % (name, t, t, o, c), [t], t,
+                                  (lambda n_, t_, c_, w_: lambda args: spec_bin(n_, t_)([args[0], z3.BitVecVal(c_, w_)]))(n, t, c, w),
+                                  {'kind': 'binop-literal-assign', 'op': n, 'type': t, 'literal': 'power-of-two' if c & (c - 1) == 0 else 'other'}))
+        for n, o in (('shl', '<<'), ('shr', '>>')):
+            for c in sorted({0, 1, 3, w // 2, w - 1}):
+                name = 'k%s_%s_%d' % (n, t, c)
+                cases.append(Case(name, '%s :: (a: %s) -> %s { a %s %d }' % (name, t, t, o, c), [t], t,
+                                  (lambda n_, t_, c_, w_: lambda args: spec_bin(n_, t_)([args[0], z3.BitVecVal(c_, w_)]))(n, t, c, w),
+                                  {'kind': 'binop-literal', 'op': n, 'type': t, 'literal': 'shift-amount'}))
+        for n, o in (('div', '/'), ('rem', '%'), ('sub', '-'), ('shl', '<<'), ('shr', '>>')):
+            for c in ([1, 100] if tier == 'quick' else [1, 2, 64, 100, top]):
+                if c > top or c >= (1 << 63):
+                    continue
+                name = 'kl%s_%s_%d' % (n, t, c)
+                cases.append(Case(name, '%s :: (a: %s) -> %s { %d %s a }' % (name, t, t, c, o), [t], t,
+                                  (lambda n_, t_, c_, w_: lambda args: spec_bin(n_, t_)([z3.BitVecVal(c_, w_), args[0]]))(n, t, c, w),
+                                  {'kind': 'binop-literal-left', 'op': n, 'type': t}))
     # booleans
     B = 'bool'
     bspecs = [('band', 'a & b', lambda a: ([], a[0] & a[1])), ('bor', 'a | b', lambda a: ([], a[0] | a[1])),
